@@ -5,7 +5,7 @@ from harness import casgen, common, refio, sessions
 from harness.common import bud
 
 PROP = "C01"
-MODULES = ["CassisModel.Properties.C01", "CassisModel.Properties.C01RoundTrip", "CassisModel.Properties.C03Doc"]
+MODULES = ["CassisModel.Properties.C01", "CassisModel.Properties.C01RoundTrip", "CassisModel.Properties.C01Applies", "CassisModel.Properties.C03Doc"]
 THEOREMS = [
     "Cassis.Lex.parseInt_showInt",
     "Cassis.Lex.splitWs_joinSp",
@@ -28,11 +28,13 @@ THEOREMS = [
     "Cassis.Xmi.xmi_roundtrip_flat",
     "Cassis.Xmi.xmi_roundtrip_flat_fixpoint",
     "Cassis.Xmi.xmi_offset_roundtrip",
+    "Cassis.Xmi.rtAppliesB_sound",
 ]
 ASSUMPTIONS = [
     "the theorems cover the lexical layer (int/bool/hex/token lists), the per-kind encode/decode pairs of the model's writer and reader, id ordering/uniqueness of the written document and the sofa/view records; the end-to-end statement load(save c) ~ c over whole graphs is NOT proved: it is checked on the implementation (oracle) and between implementation and model (correspondence) on generated CASes (partial)",
     "lxml text layer (escaping, namespaces, pretty printing), float <-> literal conversion of CPython, and the tag <-> type-name mapping are trusted and exercised through an independent stdlib reader/writer",
     "generators stay out of the recorded findings: null elements in FSArrays (X3), empty inline StringLists (X5), annotations without sofa (U2)",
+    "the end-to-end theorem xmi_roundtrip_flat covers CASes whose reachable structures have only primitive, plain reference and sofa features; whether it applies to a generated CAS is decided by the sound Boolean test rtAppliesB evaluated by the compiled model (histogram roundtrip-theorem-applies); for the other CASes (array and list features) the round trip is checked per run only",
 ]
 
 
@@ -59,7 +61,8 @@ def norm_dump(d):
 
 
 def make_case(rng, size):
-    g = casgen.CasGen(rng, n_types=rng.randint(1, 6), n_fs=size, xmi_safe=True).build()
+    # every third case lies in the fragment of the end-to-end theorem (primitive and plain reference features only)
+    g = casgen.CasGen(rng, n_types=rng.randint(1, 6), n_fs=size, xmi_safe=True, flat=rng.random() < 0.34).build()
     return g
 
 
@@ -69,7 +72,7 @@ def run_cases(ctx, out, cases, tag):
     for g in cases:
         ops = list(g.sb.ops)
         h0 = g.views["_InitialView"]
-        ops += [{"op": "xmi.save", "h": h0}, {"op": "cas.dump", "h": h0}]
+        ops += [{"op": "rt.applies", "h": h0}, {"op": "xmi.save", "h": h0}, {"op": "cas.dump", "h": h0}]
         stage_a.append(ops)
     ia = sessions.run_impl_sessions(stage_a)
     stage_b = []
@@ -117,7 +120,17 @@ def run_cases(ctx, out, cases, tag):
             def canon_op(i, x, ops2=ops2):
                 if i < len(ops2) and ops2[i]["op"] == "xmi.save" and isinstance(x, dict) and "ok" in x:
                     return {"ok": refio.canon_doc(x["ok"])}
+                if i < len(ops2) and ops2[i]["op"] == "rt.applies":
+                    return "model-only"
                 return x
+            applies = mb[k][n - 3].get("ok") if len(mb[k]) > n - 3 and isinstance(mb[k][n - 3], dict) else None
+            out.count("roundtrip-theorem-applies:%s" % ("yes" if applies is True else "no"))
+            if applies is True:
+                # the theorem (rtAppliesB_sound) says the model's load of the model's document succeeds and preserves the
+                # content; the implementation must then show the same round trip
+                if "ok" not in mb[k][n] or "ok" not in load_r:
+                    out.oracle_failures.append({"scenario": sc2, "what": "the round-trip theorem applies to this CAS but loading raised",
+                                                "actual": [load_r, mb[k][n]]})
             d = sessions.first_diff(io2, mb[k], canon_op)
             if d is not None:
                 out.disagreements.append({"scenario": sc2, "op_index": d, "op": ops2[d] if d < len(ops2) else None,
